@@ -133,6 +133,8 @@ def run(rep: common.Report, tier: str, seed: int, replay=None) -> int:
         # the other end of the range: the first step IS the maximum (dt_init == dt_max, adaptive on and off)
         dict(gamma=10.0, u=5.79, adaptive=True, screening=False, holes=1, terminals=2, smooth=0, shape="box", steps=15, model=False, ratio=1),
         dict(gamma=2.0, u=1.0, adaptive=False, screening=False, holes=0, terminals=2, smooth=0, shape="box", steps=10, model=False, ratio=1),
+        # a strongly inelastic film (gamma = 1000): whole runs, not only the single update
+        dict(gamma=1e3, u=5.79, adaptive=True, screening=False, holes=1, terminals=2, smooth=0, shape="box", steps=20, model=False),
     ]
     if tier == "thorough":
         plans = plans * 3
@@ -140,11 +142,11 @@ def run(rep: common.Report, tier: str, seed: int, replay=None) -> int:
     for ci, cfg in enumerate(plans):
         run_case(rep, rng, ci, cfg, texts, recs_all)
     # the documented update itself on the uniform state, over the range of gamma (psi = 1, mu = 0, epsilon = 1, Laplacian action 0):
-    # it has to return psi' = 1, |psi'|^2 = 1.  (gamma >= a few hundred: the discriminant (2c+1)^2 - 4|z|^2|w|^2 cancels catastrophically -
-    # known finding C17-large-gamma-uniform-state, not repaired: the expression is the one Model/Euler.v mirrors bit for bit.)
+    # it has to return psi' = 1, |psi'|^2 = 1.  (As found, for gamma >= a few hundred the discriminant (2c+1)^2 - 4|z|^2|w|^2 cancelled
+    # catastrophically: psi' = 0.949 at gamma = 1e4; repaired by fix F49, which evaluates it as 1 + 4c - 4 Im(w conj z)^2.)
     import scipy.sparse as _sp
     from tdgl.solver.solver import TDGLSolver as _S
-    for gam_ in (0.0, 0.3, 1.0, 10.0, 30.0, 1e4):
+    for gam_ in (0.0, 0.3, 1.0, 10.0, 30.0, 3e2, 1e3, 1e4, 1e6):
         one = np.ones(5, dtype=complex)
         out_ = _S.solve_for_psi_squared(psi=one, abs_sq_psi=np.ones(5), mu=np.zeros(5), epsilon=np.ones(5), gamma=gam_, u=5.79, dt=1e-3,
                                         psi_laplacian=_sp.csr_matrix((5, 5), dtype=complex))
@@ -152,7 +154,7 @@ def run(rep: common.Report, tier: str, seed: int, replay=None) -> int:
         if dev_ is None or dev_ > 1e-11:
             rep.violation("the documented update moves the uniform state psi = 1 (mu = 0, epsilon = 1, no Laplacian action): "
                           + ("refused" if dev_ is None else f"max |psi' - 1| = {dev_:.3e}"),
-                          {"gamma": gam_, "u": 5.79, "dt": 1e-3}, finding_key="C17-large-gamma-uniform-state" if gam_ >= 300 else None)
+                          {"gamma": gam_, "u": 5.79, "dt": 1e-3})
         rep.count(1)
     outs = common.run_model_shards("c17_step", texts, jobs=8)
     ndis = 0
